@@ -2,5 +2,5 @@
 from . import latfam, util
 
 globals().update(latfam.module('C07', util.theorems('C07'),
-    'contexts as C03; all ordered pairs of concepts for lattices <=14 concepts (150 sampled pairs beyond) through join/meet, | and &, and the n-ary forms (identity of the returned member); n-ary with empty, single, repeated arguments (<=5); non-trivial = a pair whose union of extents is not an extent',
-    extra_targets=['Tie/Members.vo', 'Tie/Matrices.vo'], partial=''))
+    'contexts as C03 (EXH(10) in the thorough tier); all ordered pairs of concepts for lattices <=14 concepts (150 sampled pairs beyond) through join/meet, | and &, and the n-ary forms (identity of the returned member); n-ary with empty, single, repeated arguments (<=5); non-trivial = a pair whose union of extents is not an extent',
+    extra_targets=['Tie/Members.vo', 'Tie/Matrices.vo'], partial='', exh=(9, 10)))
